@@ -185,6 +185,47 @@ def random_motion(rng, T, aggressive=1.0, lat_range=(-85, 85), speed_max=300.0, 
     raise RuntimeError('could not draw an admissible motion')
 
 
+def special_motion(rng, T, kind):
+    """Motions in which some physical quantity (nearly) VANISHES - regimes a uniform draw of speeds and headings practically never visits and in
+    which 'negligible, skip it' shortcuts of an implementation become active:
+      inertial_null  the local-level frame does not rotate in inertial space: westward flight at the Earth-surface speed of the latitude
+                     (transport rate cancels Earth rate; |lat| 52..78 so that the speed stays below 300 m/s)
+      rest           a vehicle standing still with constant attitude (body rate = Earth rate only)
+      steady         straight and level at constant velocity and attitude
+    """
+    R = 6.4e6
+    for _ in range(50):
+        p = {}
+        lon0 = np.deg2rad(rng.uniform(-180, 180))
+        alt0 = float(rng.uniform(0, 12000))
+        att = [float(rng.uniform(-np.pi, np.pi)), float(rng.uniform(-1.0, 1.0)), float(rng.uniform(-np.pi, np.pi))]
+        if kind == 'inertial_null':
+            lat0 = np.deg2rad(rng.choice([-1, 1]) * rng.uniform(52, 78))
+            u = rng.uniform(-0.02, 0.02) if rng.random() < 0.7 else rng.uniform(-0.1, 0.1)
+            p['lat'] = [float(lat0), float(rng.uniform(-30, 30) / R), [float(0.2 / 0.3 ** 2 / R), 0.3, float(rng.uniform(0, 6))]]
+            p['lon'] = [float(lon0), float(-RATE * (1 + u)), [float(0.2 / 0.4 ** 2 / R / np.cos(lat0)), 0.4, float(rng.uniform(0, 6))]]
+            p['alt'] = [alt0, float(rng.uniform(-1, 1)), [2.0, 0.3, 0.0]]
+            ra = float(rng.choice([0.0, 0.05]))
+        elif kind == 'rest':
+            lat0 = np.deg2rad(rng.uniform(-80, 80))
+            p['lat'], p['lon'], p['alt'] = [float(lat0), 0.0], [float(lon0), 0.0], [alt0, 0.0]
+            ra = 0.0
+        else:
+            lat0 = np.deg2rad(rng.uniform(-75, 75))
+            spd, hd = rng.uniform(5, 280), rng.uniform(0, 2 * np.pi)
+            p['lat'] = [float(lat0), float(spd * np.cos(hd) / R)]
+            p['lon'] = [float(lon0), float(spd * np.sin(hd) / R / np.cos(lat0))]
+            p['alt'] = [alt0, 0.0]
+            ra = 0.0
+        for c_, a0 in zip(('roll', 'pitch', 'heading'), att):
+            p[c_] = [a0, 0.0] + ([[ra / 2 / 0.7, 0.7, float(rng.uniform(0, 6))]] if ra else [])
+        m = Motion(p)
+        ex = m.extremes(T)
+        if ex['lat_max'] <= 85 and ex['speed_max'] <= 320 and ex['pitch_max'] <= 88:
+            return m, ex
+    raise RuntimeError('could not draw an admissible special motion')
+
+
 def selftest():
     """Derivatives vs 6th-order central differences; returns max relative discrepancy."""
     rng = np.random.Generator(np.random.PCG64(1))
